@@ -109,7 +109,20 @@ class LfAdapter(Adapter):
             else:
                 lf.set_param_rule("kappa", edges=list(S), is_independent=indep, is_constant=c, **kw)
         elif act == "SetMprobs":
-            lf.set_motif_probs(fx["mp"][args[0]])
+            if ctx.variant == 0 and args[0] == 2:
+                # arguments are VALUES: the probabilities are handed over as a numpy array the caller keeps and then reuses
+                # as a work buffer (overwritten after the call) - what happens to the caller's array is no part of the state
+                import numpy
+
+                order = [str(m) for m in lf.model.get_alphabet()]
+                buf = numpy.array([fx["mp"][args[0]][m] for m in order], dtype=float)
+                lf.set_motif_probs(buf)
+                try:
+                    buf[:] = buf[::-1].copy()
+                except ValueError:
+                    pass  # an array the function froze cannot be reused: also fine
+            else:
+                lf.set_motif_probs(fx["mp"][args[0]])
             ctx.mp = args[0]
         elif act == "SetAln":
             lf.set_alignment(fx["aln"][args[0]])
